@@ -152,3 +152,49 @@ Definition selected_spec (w : ws) (o : opts) (j : job) : Prop :=
 
 Definition referenced (w : ws) (ignore_old : bool) (k : key) : Prop :=
   exists x, In x (w_xps w) /\ (In k (x_jobs x) \/ (ignore_old = false /\ In k (bak_keys x))).
+
+(* ---- entries of jobs/<task>/ that are links ------------------------------
+   `deprecated list --fix` (without --cleanup) leaves
+       jobs/<new task>/<new id> -> jobs/<old task>/<old id>
+   an alias of a job directory.  When the experiment runs again its index entry is
+   xp/<name>/jobs/<new task>/<new id> -> jobs/<new task>/<new id>: the job directory
+   an index entry refers to is the directory the entry resolves to.              *)
+Definition lnk := (key * key)%type.      (* (entry, job directory it points to) *)
+
+Fixpoint resolve (links : list lnk) (k : key) : key :=
+  match links with
+  | [] => k
+  | (a, b) :: l => if key_eqb k a then b else resolve l k
+  end.
+
+Definition all_index_keys (w : ws) (ignore_old : bool) : list key :=
+  flat_map x_jobs (w_xps w) ++ (if ignore_old then [] else flat_map bak_keys (w_xps w)).
+
+(* the job directories the index entries lead to *)
+Definition index_dirs (w : ws) (links : list lnk) (ignore_old : bool) : list key :=
+  map (resolve links) (all_index_keys w ignore_old).
+
+(* orphans --clean after the repair (fixes/C19-6): index entries are resolved,
+   an entry of jobs/ that is a link is never removed (w_jobs are the real directories) *)
+Definition orphans_clean_l (w : ws) (links : list lnk) (do_clean ignore_old : bool) : list key :=
+  if do_clean
+  then filter (fun k => negb (mem_key k (index_dirs w links ignore_old))) (map job_key (w_jobs w))
+  else [].
+
+(* the code before the repair, literally: entries are compared by their relative path, and
+   rmtree is called on whatever entry is in no index -- on a link it raises (None: which
+   directories were removed before that depends on the order of the listing)          *)
+Definition is_dir (w : ws) (links : list lnk) (k : key) : bool := stored w (resolve links k).
+Definition orphans_clean_l_prefix (w : ws) (links : list lnk) (do_clean ignore_old : bool)
+  : option (list key) :=
+  let xpjobs := filter (is_dir w links) (all_index_keys w ignore_old) in
+  if do_clean
+  then if existsb (fun l : lnk => is_dir w links (fst l) && negb (mem_key (fst l) xpjobs)) links
+       then None
+       else Some (filter (fun k => negb (mem_key k xpjobs)) (map job_key (w_jobs w)))
+  else Some [].
+
+(* "referenced by an experiment index or backup index", through links *)
+Definition referenced_l (w : ws) (links : list lnk) (ignore_old : bool) (k : key) : Prop :=
+  exists x k', In x (w_xps w) /\ (In k' (x_jobs x) \/ (ignore_old = false /\ In k' (bak_keys x)))
+               /\ resolve links k' = k.
